@@ -10,7 +10,9 @@ Inductive lctx :=
    (jax.checkpoint, custom_jvp, custom_vjp): Seed does not interpret it either *)
 | LSeedEagerHO
 (* the same, two such primitives deep (checkpoint of custom_jvp of a site, checkpoint of checkpoint ...) *)
-| LSeedEagerHO2.
+| LSeedEagerHO2
+(* seed applied to a function that differentiates a site (seed(grad(f))) *)
+| LSeedGrad.
 
 Inductive outcome := ONone | OLowering | ONotImpl | OOtherErr.
 
@@ -43,6 +45,7 @@ Definition model_ctx (c : lctx) (d : nat) : jx * bool :=   (* program, is it see
   | LVmap => (b, false)
   | LSeedWhile | LSeedJit | LSeedEagerHO => (JOther b JNil, true)
   | LSeedEagerHO2 => (JOther (JOther b JNil) JNil, true)
+  | LSeedGrad => (JGrad b JNil, true)
   | LSeedFori => (JScan 2 b JNil, true)     (* fori_loop with static bounds is a scan *)
   | LSeedScanWhile => (JScan 2 (JOther b JNil) JNil, true)
   | LSeedOk => (b, true)
